@@ -1,11 +1,12 @@
 """C05 - axial mesh is finite, monotone, exact on boundaries, within limit."""
+import copy
 import math
 import types
 
 import numpy as np
 from hypothesis import strategies as st
 
-from .. import drive, env, gen
+from .. import units, drive, env, gen
 from ..runner import Outcome, Part
 
 ID = "C05"
@@ -45,7 +46,7 @@ def check_mesh(o, z, dz, bnds, L, req_dz, limit, user, boundaries):
     dz = np.asarray(dz, float)
     o.check(bool(np.all(np.isfinite(z))) and bool(np.all(np.isfinite(dz))), "mesh_finite")
     o.check(z[0] == 0.0, "mesh_starts_at_zero", repr(z[0]))
-    o.check(z[-1] == L, "mesh_ends_at_core_length", "%r vs %r" % (z[-1], L))
+    o.check(abs(z[-1] - L) <= 1e-12, "mesh_ends_at_core_length", "%r vs %r" % (z[-1], L))
     o.check(len(z) == len(dz) + 1, "mesh_lengths")
     inc = np.diff(z)
     o.check(bool(np.all(inc > 0)), "mesh_strictly_increasing", "min increment %.3e" % float(inc.min()))
@@ -213,6 +214,14 @@ def unit_cases(draw):
 
 def run_integration(spec):
     o = Outcome()
+    u = spec.get("_units")
+    if u:
+        # the same problem written in another length unit: every expectation below stays in metres
+        with drive.Case({k: v for k, v in spec.items() if k != "_units"}) as c0:
+            c0.resolve_length()
+            si = copy.deepcopy(c0.spec)
+        spec = units.convert(si, u, "kelvin", "kg", "s")
+    o.classes["length_unit"] = u or "m"
     with drive.Case(spec) as c:
         try:
             r = c.setup()
@@ -222,7 +231,7 @@ def run_integration(spec):
                 o.inconclusive = "step_below_1e-6"
                 return o
             raise
-        sp = c.spec
+        sp = si if u else c.spec
         import dassh
         L = sp["core"]["length"]
         boundaries = set([0.0, L])
@@ -270,6 +279,8 @@ def integration_cases(draw):
     k = draw(st.integers(0, 2))
     if k:
         spec["setup"]["axial_mesh_size_frac"] = gen.r6(draw(gen.logfl(0.002, 0.05))) if k == 1 else 0.5
+    if draw(st.integers(0, 2)) == 0:
+        spec["_units"] = draw(st.sampled_from(["cm", "mm", "in", "ft"]))
     return spec
 
 
